@@ -20,26 +20,26 @@ import (
 )
 
 type Case struct {
-	Kind    string     `json:"kind"`
-	Name    string     `json:"name"`
-	Kinds   []string   `json:"kinds"`
+	Kind    string          `json:"kind"`
+	Name    string          `json:"name"`
+	Kinds   []string        `json:"kinds"`
 	Base    json.RawMessage `json:"base"`
 	Variant json.RawMessage `json:"variant"`
-	Tree    *Node      `json:"tree"`
-	Idents  []string   `json:"idents"`
-	Nsep    int        `json:"nsep"`
-	Open    string     `json:"open"`
-	Close   string     `json:"close"`
-	Sep     string     `json:"sep"`
-	Pairs   [][]string `json:"pairs"`
-	Live    int        `json:"live"`
-	Known   string     `json:"known"`
-	Cont    string     `json:"cont"`
-	N       int        `json:"n"`
-	Cl      string     `json:"cl"`
-	Mode    string     `json:"mode"`
-	Pos     int        `json:"pos"`
-	Text    string     `json:"text"`
+	Tree    *Node           `json:"tree"`
+	Idents  []string        `json:"idents"`
+	Nsep    int             `json:"nsep"`
+	Open    string          `json:"open"`
+	Close   string          `json:"close"`
+	Sep     string          `json:"sep"`
+	Pairs   [][]string      `json:"pairs"`
+	Live    int             `json:"live"`
+	Known   string          `json:"known"`
+	Cont    string          `json:"cont"`
+	N       int             `json:"n"`
+	Cl      string          `json:"cl"`
+	Mode    string          `json:"mode"`
+	Pos     int             `json:"pos"`
+	Text    string          `json:"text"`
 }
 
 // trees decodes a field that is either one tree or a sequence of trees (file body).
@@ -67,6 +67,77 @@ type dictObs struct {
 	texts []string
 }
 
+// watchDicts installs the Dict hooks; the returned function removes them and returns the observations.
+func watchDicts() func() []dictObs {
+	var obs []dictObs
+	jen.VerifHookObj = func(point string, _ *jen.File, a, k interface{}) {
+		switch point {
+		case "dict":
+			obs = append(obs, dictObs{ptr: reflect.ValueOf(a).Pointer()})
+		case "dictkey":
+			if len(obs) > 0 {
+				obs[len(obs)-1].keys = append(obs[len(obs)-1].keys, k)
+			}
+		}
+	}
+	jen.VerifHook = func(point string, _ *jen.File, arg string) {
+		if point == "dictkey" && len(obs) > 0 {
+			obs[len(obs)-1].texts = append(obs[len(obs)-1].texts, arg)
+		}
+	}
+	return func() []dictObs {
+		jen.VerifHookObj = nil
+		jen.VerifHook = nil
+		return obs
+	}
+}
+
+// fixupDicts rewrites every observed dict node for the model: items in the order the first pass visited
+// them (dead pairs last), order = the live items sorted stably by the key texts the hook saw.
+// It returns, per dict, the visiting order as original pair indices.
+func fixupDicts(b *Builder, obs []dictObs) [][]int {
+	orders := [][]int{}
+	for _, o := range obs {
+		info := b.Dicts[o.ptr]
+		if info == nil {
+			continue
+		}
+		order1 := []int{}
+		seen := map[int]bool{}
+		for _, k := range o.keys {
+			if i, found := info.Keys[k]; found && !seen[i] {
+				order1 = append(order1, i)
+				seen[i] = true
+			}
+		}
+		nlive := len(order1)
+		for i := range info.Pairs {
+			if !seen[i+1] {
+				order1 = append(order1, i+1)
+			}
+		}
+		items := []*Node{}
+		for _, i := range order1 {
+			items = append(items, info.Pairs[i-1])
+		}
+		info.Node.Items = items
+		idx := []int{}
+		for i := 0; i < nlive; i++ {
+			idx = append(idx, i+1)
+		}
+		if len(o.texts) >= nlive {
+			texts := o.texts
+			sort.SliceStable(idx, func(x, y int) bool { return texts[idx[x]-1] < texts[idx[y]-1] })
+		}
+		for i := nlive; i < len(items); i++ {
+			idx = append(idx, i+1)
+		}
+		info.Node.Order = idx
+		orders = append(orders, order1[:nlive])
+	}
+	return orders
+}
+
 // renderBody builds a fresh File from the trees and renders it. Dict first-pass orders are recorded through the hook.
 func renderBody(body []*Node, noformat bool, b *Builder) (renderResult, []dictObs) {
 	if b == nil {
@@ -79,22 +150,8 @@ func renderBody(body []*Node, noformat bool, b *Builder) (renderResult, []dictOb
 		for _, t := range body {
 			f.Add(b.Code(t))
 		}
-		jen.VerifHookObj = func(point string, _ *jen.File, a, k interface{}) {
-			switch point {
-			case "dict":
-				obs = append(obs, dictObs{ptr: reflect.ValueOf(a).Pointer()})
-			case "dictkey":
-				if len(obs) > 0 {
-					obs[len(obs)-1].keys = append(obs[len(obs)-1].keys, k)
-				}
-			}
-		}
-		jen.VerifHook = func(point string, _ *jen.File, arg string) {
-			if point == "dictkey" && len(obs) > 0 {
-				obs[len(obs)-1].texts = append(obs[len(obs)-1].texts, arg)
-			}
-		}
-		defer func() { jen.VerifHookObj = nil; jen.VerifHook = nil }()
+		stop := watchDicts()
+		defer func() { obs = stop() }()
 		var buf bytes.Buffer
 		err := f.Render(&buf)
 		return buf.Bytes(), err
@@ -227,49 +284,11 @@ func runC16(tw *TraceWriter, id int, c *Case, repeats int) {
 	b := NewBuilder()
 	rv, obs := renderBody(body, true, b)
 	fv, _ := renderBody(body, false, nil)
-	// rewrite the dict node into the observed first-pass order for the model: items in visiting order,
-	// order = live items sorted (stably) by the key texts seen by the hook, dead pairs last
-	otree := cloneNode(c.Tree)
-	var dn *Node
-	Walk(otree, func(n *Node) {
-		if n.K == "dict" {
-			dn = n
-		}
-	})
 	order1 := []int{}
-	if len(obs) == 1 && dn != nil {
-		info := b.Dicts[obs[0].ptr]
-		seen := map[int]bool{}
-		for _, k := range obs[0].keys {
-			if i, found := info.Keys[k]; found && !seen[i] {
-				order1 = append(order1, i)
-				seen[i] = true
-			}
-		}
-		nlive := len(order1)
-		for i := range dn.Items {
-			if !seen[i+1] {
-				order1 = append(order1, i+1)
-			}
-		}
-		items := []*Node{}
-		for _, i := range order1 {
-			items = append(items, dn.Items[i-1])
-		}
-		dn.Items = items
-		idx := []int{}
-		for i := 0; i < nlive; i++ {
-			idx = append(idx, i+1)
-		}
-		texts := obs[0].texts
-		if len(texts) >= nlive {
-			sort.SliceStable(idx, func(x, y int) bool { return texts[idx[x]-1] < texts[idx[y]-1] })
-		}
-		for i := nlive; i < len(items); i++ {
-			idx = append(idx, i+1)
-		}
-		dn.Order = idx
+	if os := fixupDicts(b, obs); len(os) == 1 {
+		order1 = os[0]
 	}
+	otree := c.Tree
 	pairs, keys, multiline, parsed := dictProjection(fv.out)
 	sorted := sort.StringsAreSorted(keys)
 	// C07: same construction, same bytes - rebuild and render repeatedly (fresh objects, fresh maps)
@@ -279,10 +298,10 @@ func runC16(tw *TraceWriter, id int, c *Case, repeats int) {
 		bb := NewBuilder()
 		r2, o2 := renderBody(body, true, bb)
 		hashes[Hash(r2.out)] = true
-		if len(o2) == 1 {
+		for _, o := range o2 {
 			ord := []int{}
-			info := bb.Dicts[o2[0].ptr]
-			for _, k := range o2[0].keys {
+			info := bb.Dicts[o.ptr]
+			for _, k := range o.keys {
 				ord = append(ord, info.Keys[k])
 			}
 			orders[fmt.Sprint(ord)] = true
@@ -290,7 +309,7 @@ func runC16(tw *TraceWriter, id int, c *Case, repeats int) {
 	}
 	tw.Stats["dict_first_pass_orders_seen"] += len(orders)
 	tw.Emit(Rec{"ev": "c16", "id": id, "pairs": c.Pairs, "live": c.Live, "known": c.Known,
-		"tree": c.Tree, "otree": otree, "order1": order1,
+		"otree": otree, "order1": order1,
 		"rv": resRec(rv, fv), "expected": expectedPairs(c), "got": pairs, "parsed": parsed,
 		"sorted": sorted, "multiline": multiline, "nhash": len(hashes), "norders": len(orders)})
 	if c.Live >= 2 {
